@@ -7,26 +7,37 @@ EXTENDS ReportRules
 
 Strip(es, K) == SelectSeq(es, LAMBDA x : x \in K)
 TrimNodesD(samples, cfg, K) == { r \in NodeTableD(samples, cfg) : r.e \in K }
+\* Entries whose flat and cum are both zero are never part of a report, trimmed or not, and a path through one
+\* of them is not an adjacency of its neighbours: in the untrimmed report (the reference of C05) their edges are
+\* simply absent.  Z is that set of entries; Z = {} gives the reading in which they are bridged like trimmed ones.
+ZeroEntries(samples, cfg) == { e \in AllEntries(samples, cfg) : FlatD(samples, cfg, e, W) = 0 /\ CumD(samples, cfg, e, W) = 0 }
 \* adjacency (a,b) in the stripped sequence; Bypass = some removed entry lies between them
-AdjPos(es, K, a, b) ==
+AdjPosZ(es, K, Z, a, b) ==
   { <<i, j>> \in (DOMAIN es) \X (DOMAIN es) :
-      i < j /\ es[i] = a /\ es[j] = b /\ \A m \in (i + 1)..(j - 1) : es[m] \notin K }
-TrimEdgeW(samples, cfg, K, a, b) ==
-  SumOver(samples, cfg, LAMBDA s : AdjPos(Entries(s, cfg), K, a, b) # {}, W)
-TrimEdgesD(samples, cfg, K) ==
-  { [src |-> a, dst |-> b, w |-> TrimEdgeW(samples, cfg, K, a, b)] :
+      i < j /\ es[i] = a /\ es[j] = b /\ \A m \in (i + 1)..(j - 1) : es[m] \notin K /\ es[m] \notin Z }
+TrimEdgeWZ(samples, cfg, K, Z, a, b) ==
+  SumOver(samples, cfg, LAMBDA s : AdjPosZ(Entries(s, cfg), K, Z, a, b) # {}, W)
+TrimEdgesDZ(samples, cfg, K, Z) ==
+  { [src |-> a, dst |-> b, w |-> TrimEdgeWZ(samples, cfg, K, Z, a, b)] :
       <<a, b>> \in { p \in K \X K : p[1] # p[2] /\ \E i \in DOMAIN samples :
-                        Counted(samples[i], cfg) /\ AdjPos(Entries(samples[i], cfg), K, p[1], p[2]) # {} } }
+                        Counted(samples[i], cfg) /\ AdjPosZ(Entries(samples[i], cfg), K, Z, p[1], p[2]) # {} } }
 \* three-valued residual flag: TRUE if every contributing adjacency bypasses a removed entry,
 \* FALSE if none does, otherwise either (the code decides by the first occurrence in each sample)
-AllBypass(samples, cfg, K, a, b) ==
+AllBypassZ(samples, cfg, K, Z, a, b) ==
   \A i \in DOMAIN samples : Counted(samples[i], cfg) =>
-     \A p \in AdjPos(Entries(samples[i], cfg), K, a, b) : p[2] > p[1] + 1
-NoBypass(samples, cfg, K, a, b) ==
+     \A p \in AdjPosZ(Entries(samples[i], cfg), K, Z, a, b) : p[2] > p[1] + 1
+NoBypassZ(samples, cfg, K, Z, a, b) ==
   \A i \in DOMAIN samples : Counted(samples[i], cfg) =>
-     \A p \in AdjPos(Entries(samples[i], cfg), K, a, b) : p[2] = p[1] + 1
-ResidualOK(samples, cfg, K, a, b, flag) ==
-  /\ (AllBypass(samples, cfg, K, a, b) => flag)
-  /\ (NoBypass(samples, cfg, K, a, b) => ~flag)
+     \A p \in AdjPosZ(Entries(samples[i], cfg), K, Z, a, b) : p[2] = p[1] + 1
+ResidualOKZ(samples, cfg, K, Z, a, b, flag) ==
+  /\ (AllBypassZ(samples, cfg, K, Z, a, b) => flag)
+  /\ (NoBypassZ(samples, cfg, K, Z, a, b) => ~flag)
+\* the reading used for an explicit kept set (Trim.tla: graph.New with KeptNodes): everything outside K is bridged
+AdjPos(es, K, a, b) == AdjPosZ(es, K, {}, a, b)
+TrimEdgeW(samples, cfg, K, a, b) == TrimEdgeWZ(samples, cfg, K, {}, a, b)
+TrimEdgesD(samples, cfg, K) == TrimEdgesDZ(samples, cfg, K, {})
+AllBypass(samples, cfg, K, a, b) == AllBypassZ(samples, cfg, K, {}, a, b)
+NoBypass(samples, cfg, K, a, b) == NoBypassZ(samples, cfg, K, {}, a, b)
+ResidualOK(samples, cfg, K, a, b, flag) == ResidualOKZ(samples, cfg, K, {}, a, b, flag)
 
 =============================================================================
